@@ -94,6 +94,10 @@ func controlExpectations() []traceCase {
 		traceCase{"rec(1);", tr("1"), "V:NULL:" + hexs("null")},
 		traceCase{"n = 0; for (n < 3) { n++; rec(n); } return n;", tr("1", "2", "3"), "V:INTEGER:" + hexs("3")},
 		traceCase{"i = 0; while (i < 2) { j = 0; while (j < 2) { rec(i, j); j++; } i++; } return i + j;", tr("0,0", "0,1", "1,0", "1,1"), "V:INTEGER:" + hexs("4")},
+		// long loops: the body runs once per iteration however many iterations (and calls) there are
+		traceCase{"function id(p) { return p; } n = 0; while (n < 10050) { n = id(n) + 1; } return n;", "", "V:INTEGER:" + hexs("10050")},
+		traceCase{"function id(p) { return p; } n = 0; foreach i in 1..10050 { n = id(i); } return n;", "", "V:INTEGER:" + hexs("10050")},
+		traceCase{"n = 0; foreach i in 1..150 { foreach j in 1..100 { n = n + 1; } } return n;", "", "V:INTEGER:" + hexs("15000")},
 	)
 	return out
 }
@@ -103,8 +107,12 @@ func genCtlExpect(stream string, seed uint64) []GenCase {
 	var out []GenCase
 	for i, t := range controlExpectations() {
 		for _, opt := range []bool{true, false} {
+			polls := defaultPolls
+			if strings.Contains(t.script, "10050") || strings.Contains(t.script, "1..150") {
+				polls = -1
+			}
 			c := Case{ID: fmt.Sprintf("%s-%d-%v", stream, i, opt), Script: t.script, Opt: opt, Fns: []HostFn{recFn()}, Tags: []string{"control-expectation"},
-				Runs: []Run{{Obj: stdObject(r), Polls: defaultPolls}}}
+				Runs: []Run{{Obj: stdObject(r), Polls: polls}}}
 			out = append(out, GenCase{Case: c, Stream: stream, NonTrivial: true, Role: "trace:" + hexs(t.trace) + ":" + t.result})
 		}
 	}
